@@ -110,6 +110,31 @@ def check_body(rule, crate, body, label):
                 obs.append(Ob(rule + ".carried", body.path, "%s: a buffer created before the loop over the whole file is modified inside it (%s)" % (label, name), False,
                               site=s.where, expected="per-item scratch state is created inside the loop", found=show(obj)[:60],
                               example="a contract with one state variable followed by another contract"))
+        if filewide:
+            # phase order: a table that the file-wide loop itself modifies (of whatever key type) is not read into the result inside that loop —
+            # what is left in it after item k depends on which items come before and after
+            result = body.val_local(0)
+            mutated = {}
+            for s in S.call_sites(body):
+                if s.bb not in lp.blocks or not s.args:
+                    continue
+                name = s.path.rsplit("::", 1)[-1]
+                if name in MUTATORS and s.path.startswith(("std::vec::Vec::", "std::collections::", "std::string::String::")):
+                    obj = O.root_object(s.args[0])
+                    cb = O.creation_block(body, obj)
+                    if cb is not None and cb not in lp.blocks and obj != result:
+                        mutated.setdefault(obj, s)
+            for s in S.call_sites(body):
+                if s.bb not in lp.blocks or len(s.args) < 2 or O.root_object(s.args[0]) != result:
+                    continue
+                if s.path.rsplit("::", 1)[-1] not in ("insert", "extend", "push", "append"):
+                    continue
+                for obj, ms in mutated.items():
+                    if any(T.contains(a, obj) for a in s.args[1:]):
+                        obs.append(Ob(rule + ".carried", body.path, "%s: findings are read out of a table inside the loop over the whole file that is still modifying it" % label, False,
+                                      site=s.where, expected="a table that the file-wide loop updates is read into the result only after that loop",
+                                      found="%s, modified at %s" % (show(obj)[:60], ms.where),
+                                      example="interface I {} contract C { address o; constructor(){o=msg.sender;} function f(address n) external {o=n;} }"))
         obs.append(Ob(rule + ".loop", body.path, "%s: loop over %s is %s" % (label, show(it)[:70], "file-wide, stateless" if filewide else "inside one item"),
                       True, site=where, nontrivial=filewide))
     # file-rooted searches inside per-item loops
